@@ -82,3 +82,21 @@ pub fn vx_split_at<'a>(s: &'a str, mid: usize) -> (o: (&'a str, &'a str))
 { unimplemented!() }
 #[verifier::external_body]
 pub fn vx_str_is_empty(s: &str) -> (r: bool) ensures r == (s@.len() == 0) { unimplemented!() }
+#[verifier::external_body]
+pub fn vx_string_with_capacity() -> (r: String) ensures r@ == Seq::<char>::empty() { unimplemented!() }
+#[verifier::external_body]
+pub fn vx_push_str(s: &mut String, t: &str) ensures final(s)@ == old(s)@ + t@ { unimplemented!() }
+#[verifier::external_body]
+pub fn vx_push_char(s: &mut String, c: char) ensures final(s)@ == old(s)@.push(c) { unimplemented!() }
+pub uninterp spec fn lower_c(c: char) -> Seq<char>;
+pub uninterp spec fn is_ascii_punct(c: char) -> bool;
+pub uninterp spec fn is_ws_char(c: char) -> bool;
+/// `write!(s, "{}", c.to_uppercase()).unwrap()` (writing to a String cannot fail)
+#[verifier::external_body]
+pub fn vx_push_upper(s: &mut String, c: char) ensures final(s)@ == old(s)@ + upper_c(c) { unimplemented!() }
+#[verifier::external_body]
+pub fn vx_push_lower(s: &mut String, c: char) ensures final(s)@ == old(s)@ + lower_c(c) { unimplemented!() }
+#[verifier::external_body]
+pub fn vx_is_ascii_punct(c: char) -> (r: bool) ensures r == is_ascii_punct(c) { unimplemented!() }
+#[verifier::external_body]
+pub fn vx_is_ws(c: char) -> (r: bool) ensures r == is_ws_char(c) { unimplemented!() }
